@@ -70,8 +70,30 @@ def names_for(lang, builtin_only=False):
     return builtin + sorted(aliases - names)
 
 
+_overruns = [0]
+
+
+def exhausted():
+    """three CPU overruns in this shard: stop generating (compiled code cannot be interrupted by the alarm, so every
+    further blow-up would cost its full run time)"""
+    return _overruns[0] >= 3
+
+
 def expand(text, lang, templates=None, pagename="Page/Sub"):
     """returns (result, failure) with failure = (bucket, detail) or None"""
+    import time
+
+    t0 = time.process_time()
+    r, fail = _expand(text, lang, templates, pagename)
+    used = time.process_time() - t0
+    if fail is None and used > 5:
+        fail = ("cpu:more-than-5s", "%.0f s of CPU" % used)
+    if fail is not None and fail[0].startswith("cpu:"):
+        _overruns[0] += 1
+    return r, fail
+
+
+def _expand(text, lang, templates=None, pagename="Page/Sub"):
     from mwlib.parser.expander import Expander
 
     total = len(text) + sum(len(v) for v in (templates or {}).values())
@@ -193,7 +215,7 @@ def run_shard(ctx):
                 for args in combos:
                     for text in (["{{%s}}" % name, "{{%s:}}" % name] if k == 0 else ["{{%s:%s}}" % (name, "|".join(args))]):
                         idx += 1
-                        if idx % ctx.nshards != ctx.shard:
+                        if idx % ctx.nshards != ctx.shard or exhausted():
                             continue
                         case = dict(text=text, lang=lang)
                         if evals % 16 == 0:
@@ -216,6 +238,8 @@ def run_shard(ctx):
     @ctx.settings(ctx.n(8000, 200000))
     @given(universe(lex))
     def t(case):
+        if exhausted():
+            return
         ctx.announce(case)
         if tainted(case) and ctx.is_known_open(KF_BLOWUP):
             ctx.excluded += 1
@@ -230,6 +254,8 @@ def run_shard(ctx):
         ctx.record(jdump(case), labels, nt, sample=dict(case, result=(r or "")[:120]))
 
     ctx.run_given(t)
+    if exhausted():
+        ctx.inconclusive.append("shard %d stopped generating after 3 CPU overruns" % ctx.shard)
 
     for bucket, f in list(ctx.failures.items())[:6]:
         case = f["case"]
